@@ -546,14 +546,14 @@ def default_plan(values):
     return plan
 
 
-def random_plan(rng, values):
+def random_plan(rng, values, zero_runs=True):
     """A random legal plan: any mix of RLE runs (over equal stretches, any length >= 1), bit-packed runs of
-    1..4 groups, and occasional zero-length runs of both kinds."""
+    1..4 groups, and (zero_runs) occasional zero-length runs of both kinds."""
     n = len(values)
     plan, i = [], 0
     while i < n:
         r = rng.random()
-        if r < 0.08:
+        if r < 0.08 and zero_runs:
             plan.append(("rle", 0) if rng.random() < 0.5 else ("bp", 0))
             continue
         j = i
@@ -572,7 +572,7 @@ def random_plan(rng, values):
             else:
                 plan.append(("bp", g))
                 i += 8 * g
-    if rng.random() < 0.1:
+    if zero_runs and rng.random() < 0.1:
         plan.append(("rle", 0))
     return plan
 
@@ -1119,7 +1119,9 @@ def _read_chunk(pf, r, c, cc, leaf, decode_values):
         pf._v("page_chain", where, f"pages end at {pos}, chunk ends at {end}")
         ok = False
     ch.chain_ok = ok
-    if first_data is not None and first_data != dpo:
+    dict_first = bool(ch.pages) and ch.pages[0].kind == "DICTIONARY_PAGE"
+    if first_data is not None and first_data != dpo and not (dict_first and (dico is None or dico <= 0) and ch.pages[0].offset == dpo):
+        # (legal old layout: no dictionary_page_offset, data_page_offset points at the dictionary page)
         pf._v("data_page_offset", where, f"first data page at {first_data}, data_page_offset says {dpo}")
     if ok and first_data is None and (md.get("num_values") or 0) > 0:
         pf._v("page_chain", where, "chunk with values but without data page")
@@ -1259,7 +1261,806 @@ def _decode_values(pf, ch, pg, enc, body, pos, end, nn, where):
         if any(i >= len(ch.dictionary) for i in idx):
             raise DecodeError("dictionary index out of range")
         return [ch.dictionary[i] for i in idx]
-    raise DecodeError(f"value encoding {ENCODING.get(enc, enc)} not implemented by this reader")
+    vals, p2 = decode_values(ENCODING.get(enc, str(enc)), leaf.ptype, body, pos, end, nn, leaf.type_length)
+    if p2 != end:
+        pf._v("page_trailing_bytes", where, f"{end - p2} bytes after the {nn} {ENCODING.get(enc, enc)} values", "warn")
+    return vals
+
+
+# ----------------------------------------------------------------------------- further value encodings
+# (used by the reference writer for the "feature carquet does not claim" cases, and decoded by read_file so
+# that the writer can be cross-checked by the reader)
+
+def _dbp_encode_ints(ints, bits, block=128, minis=4):
+    """DELTA_BINARY_PACKED (Encodings.md): header <block size><miniblocks><total count><first value>, then
+    blocks of <min delta><bit widths><miniblocks>.  `ints` are signed Python ints of `bits` width."""
+    mask = (1 << bits) - 1
+
+    def wrap(x):
+        x &= mask
+        return x - (1 << bits) if x >> (bits - 1) else x
+
+    out = bytearray()
+    out += write_varint(block) + write_varint(minis) + write_varint(len(ints))
+    out += write_varint(zigzag(ints[0] if ints else 0, 64) if bits == 64 else zigzag(ints[0] if ints else 0))
+    deltas = [wrap(ints[i] - ints[i - 1]) for i in range(1, len(ints))]
+    per = block // minis
+    for b in range(0, len(deltas), block):
+        blk = deltas[b:b + block]
+        mn = min(blk)
+        out += write_varint(zigzag(mn))
+        rel = [(d - mn) & mask for d in blk]
+        widths, chunks = [], []
+        for m in range(minis):
+            mb = rel[m * per:(m + 1) * per]
+            if not mb:
+                widths.append(0)
+                continue
+            w = max(x.bit_length() for x in mb)
+            widths.append(w)
+            mb = mb + [0] * (per - len(mb))
+            acc = 0
+            for i, x in enumerate(mb):
+                acc |= x << (i * w)
+            chunks.append(acc.to_bytes(per * w // 8, "little"))
+        out += bytes(widths)
+        for c in chunks:
+            out += c
+    return bytes(out)
+
+
+def _dbp_decode_ints(buf, pos, end, bits):
+    """Inverse of _dbp_encode_ints -> (list of signed ints, new position)."""
+    mask = (1 << bits) - 1
+    try:
+        block, pos = read_varint(buf, pos, end)
+        minis, pos = read_varint(buf, pos, end)
+        total, pos = read_varint(buf, pos, end)
+        u, pos = read_varint(buf, pos, end)
+    except ThriftError as e:
+        raise DecodeError("DELTA_BINARY_PACKED header: %s" % e)
+    if block == 0 or block % 128 or minis == 0 or block % minis or (block // minis) % 32:
+        raise DecodeError("DELTA_BINARY_PACKED block size %d / %d miniblocks" % (block, minis))
+    per = block // minis
+
+    def wrap(x):
+        x &= mask
+        return x - (1 << bits) if x >> (bits - 1) else x
+
+    vals = [wrap(unzigzag(u))] if total else []
+    while len(vals) < total:
+        try:
+            u, pos = read_varint(buf, pos, end)
+        except ThriftError as e:
+            raise DecodeError("DELTA_BINARY_PACKED block: %s" % e)
+        mn = unzigzag(u)
+        if pos + minis > end:
+            raise DecodeError("DELTA_BINARY_PACKED widths past the end")
+        widths = list(buf[pos:pos + minis])
+        pos += minis
+        for w in widths:
+            if len(vals) >= total:
+                break
+            if w > bits:
+                raise DecodeError("DELTA_BINARY_PACKED width %d" % w)
+            nb = per * w // 8
+            if pos + nb > end:
+                raise DecodeError("DELTA_BINARY_PACKED miniblock past the end")
+            acc = int.from_bytes(buf[pos:pos + nb], "little")
+            pos += nb
+            for i in range(per):
+                if len(vals) >= total:
+                    break
+                d = (acc >> (i * w)) & ((1 << w) - 1) if w else 0
+                vals.append(wrap(vals[-1] + mn + d))
+    return vals, pos
+
+
+def encode_values(encoding, ptype, values, tlen=0):
+    """Encode non-null raw values with one of: PLAIN, DELTA_BINARY_PACKED (INT32/INT64), BYTE_STREAM_SPLIT
+    (FLOAT/DOUBLE/INT32/INT64/FIXED_LEN_BYTE_ARRAY), DELTA_LENGTH_BYTE_ARRAY, DELTA_BYTE_ARRAY (BYTE_ARRAY),
+    RLE (BOOLEAN: 4-byte length + hybrid of width 1)."""
+    if encoding == "PLAIN":
+        return plain_encode(ptype, values, tlen)
+    if encoding == "DELTA_BINARY_PACKED":
+        bits = 32 if ptype == "INT32" else 64
+        return _dbp_encode_ints([int.from_bytes(v, "little", signed=True) for v in values], bits)
+    if encoding == "BYTE_STREAM_SPLIT":
+        w = tlen if ptype == "FIXED_LEN_BYTE_ARRAY" else FIXED_WIDTH[ptype]
+        return b"".join(bytes(v[k] for v in values) for k in range(w))
+    if encoding == "DELTA_LENGTH_BYTE_ARRAY":
+        return _dbp_encode_ints([len(v) for v in values], 32) + b"".join(values)
+    if encoding == "DELTA_BYTE_ARRAY":
+        pre, suf, prev = [], [], b""
+        for v in values:
+            k = 0
+            while k < min(len(v), len(prev)) and v[k] == prev[k]:
+                k += 1
+            pre.append(k)
+            suf.append(v[k:])
+            prev = v
+        return _dbp_encode_ints(pre, 32) + _dbp_encode_ints([len(s) for s in suf], 32) + b"".join(suf)
+    if encoding == "RLE" and ptype == "BOOLEAN":
+        b = rle_hybrid_encode([v[0] for v in values], 1)
+        return struct.pack("<I", len(b)) + b
+    raise ValueError("cannot encode %s as %s" % (ptype, encoding))
+
+
+def decode_values(encoding, ptype, buf, pos, end, n, tlen=0):
+    """Inverse of encode_values for the non-PLAIN, non-dictionary encodings -> (values, new position)."""
+    if encoding == "DELTA_BINARY_PACKED":
+        bits = {"INT32": 32, "INT64": 64}.get(ptype)
+        if not bits:
+            raise DecodeError("DELTA_BINARY_PACKED on " + str(ptype))
+        ints, pos = _dbp_decode_ints(buf, pos, end, bits)
+        if len(ints) < n:
+            raise DecodeError("DELTA_BINARY_PACKED holds %d values, %d needed" % (len(ints), n))
+        return [int(x).to_bytes(bits // 8, "little", signed=True) for x in ints[:n]], pos
+    if encoding == "BYTE_STREAM_SPLIT":
+        w = tlen if ptype == "FIXED_LEN_BYTE_ARRAY" else FIXED_WIDTH.get(ptype)
+        if not w or pos + n * w > end:
+            raise DecodeError("BYTE_STREAM_SPLIT past the end")
+        return [bytes(buf[pos + k * n + i] for k in range(w)) for i in range(n)], pos + n * w
+    if encoding == "DELTA_LENGTH_BYTE_ARRAY":
+        lens, pos = _dbp_decode_ints(buf, pos, end, 32)
+        vals = []
+        for ln in lens[:n]:
+            if ln < 0 or pos + ln > end:
+                raise DecodeError("DELTA_LENGTH_BYTE_ARRAY value past the end")
+            vals.append(bytes(buf[pos:pos + ln]))
+            pos += ln
+        if len(vals) < n:
+            raise DecodeError("DELTA_LENGTH_BYTE_ARRAY holds too few values")
+        return vals, pos
+    if encoding == "DELTA_BYTE_ARRAY":
+        pre, pos = _dbp_decode_ints(buf, pos, end, 32)
+        sl, pos = _dbp_decode_ints(buf, pos, end, 32)
+        vals, prev = [], b""
+        for p, ln in list(zip(pre, sl))[:n]:
+            if p < 0 or p > len(prev) or ln < 0 or pos + ln > end:
+                raise DecodeError("DELTA_BYTE_ARRAY value past the end")
+            prev = prev[:p] + bytes(buf[pos:pos + ln])
+            pos += ln
+            vals.append(prev)
+        if len(vals) < n:
+            raise DecodeError("DELTA_BYTE_ARRAY holds too few values")
+        return vals, pos
+    if encoding == "RLE" and ptype == "BOOLEAN":
+        if pos + 4 > end:
+            raise DecodeError("RLE booleans: length past the end")
+        ln = struct.unpack_from("<I", buf, pos)[0]
+        if ln > end - pos - 4:
+            raise DecodeError("RLE booleans: block past the end")
+        v, _ = rle_hybrid_decode(buf, pos + 4, pos + 4 + ln, 1, n)
+        return [bytes([x]) for x in v], pos + 4 + ln
+    raise DecodeError("value encoding %s not implemented by this reader" % encoding)
+
+
+# ----------------------------------------------------------------------------- reference writer (property C06)
+
+@dataclass
+class SchemaNode:
+    """A node of the schema tree.  Leaf when ptype is set, group otherwise."""
+    name: str
+    rep: str = "REQUIRED"
+    ptype: Optional[str] = None
+    type_length: int = 0
+    children: List["SchemaNode"] = field(default_factory=list)
+    converted_type: Optional[int] = None
+
+    def is_leaf(self):
+        return self.ptype is not None
+
+
+@dataclass
+class PageSpec:
+    """One data page: n = number of level entries (num_values) it takes from the column chunk.
+    encoding: PLAIN | RLE_DICTIONARY | PLAIN_DICTIONARY | DELTA_BINARY_PACKED | BYTE_STREAM_SPLIT |
+              DELTA_LENGTH_BYTE_ARRAY | DELTA_BYTE_ARRAY | RLE
+    version: 1 | 2.  level_encoding: RLE | BIT_PACKED (v1 only).  *_plan: None (default run plan), 'random'
+    or an explicit plan for rle_hybrid_encode.  crc: False | True | 'bad'.  stats: write Statistics.
+    idx_width_extra: use a wider bit width than needed for dictionary indices."""
+    n: int
+    encoding: str = "PLAIN"
+    version: int = 1
+    level_encoding: str = "RLE"
+    def_plan: object = None
+    rep_plan: object = None
+    idx_plan: object = None
+    crc: object = False
+    stats: bool = False
+    idx_width_extra: int = 0
+    v2_compressed: bool = True
+
+
+@dataclass
+class ColumnSpec:
+    """One column chunk together with its ground truth: def levels, rep levels (one per entry) and the
+    non-null values.  pages partition the entries.  dictionary: None | 'auto' | explicit list of values;
+    dict_offset: 'present' (dictionary_page_offset set) | 'absent' (data_page_offset points at the dictionary
+    page, which a reader recognises by its header); dict_tag: encoding written in the dictionary page header."""
+    defs: List[int]
+    reps: List[int]
+    values: List[bytes]
+    pages: List[PageSpec]
+    codec: object = "UNCOMPRESSED"           # name, or a number for "unknown codec id" cases
+    dictionary: object = None
+    dict_offset: str = "present"
+    dict_tag: str = "PLAIN"
+    dict_crc: object = False
+    chunk_stats: bool = False
+    body_codec: Optional[str] = None         # codec really used for the bytes when `codec` is an unknown id
+
+
+@dataclass
+class RowGroupSpec:
+    """One row group: number of rows and one ColumnSpec per leaf."""
+    num_rows: int
+    columns: List[ColumnSpec]
+
+
+@dataclass
+class FileSpec:
+    """Everything write_file needs.  extra_fields: sprinkle unknown Thrift fields (ids the format does not
+    define) over all metadata structs; long_form: write every field header in the long form (delta 0 +
+    explicit id) and every list size as a varint; optional_meta: also write the optional fields of
+    parquet.thrift that carry no data (key_value_metadata, column_orders, encoding_stats, ordinal,
+    converted types, sorting columns ...)."""
+    root: SchemaNode
+    row_groups: List[RowGroupSpec]
+    created_by: Optional[str] = "pq.py reference writer"
+    version: int = 1
+    extra_fields: bool = False
+    long_form: bool = False
+    optional_meta: bool = False
+    features: dict = field(default_factory=dict)   # free-form description of what the generator chose
+
+    def leaves(self):
+        """Leaf descriptors in column order."""
+        return spec_leaves(self.root)
+
+    def truth(self):
+        """[row group][column] -> (defs, reps, values): what a correct reader must deliver."""
+        return [[(list(c.defs), list(c.reps), list(c.values)) for c in rg.columns] for rg in self.row_groups]
+
+
+def spec_leaves(root):
+    """SchemaNode tree -> [Leaf] (same structure the reader derives from the flattened schema)."""
+    out = []
+
+    def walk(node, path, d, r, reps, nodes):
+        for ch in node.children:
+            d2 = d + (1 if ch.rep in ("OPTIONAL", "REPEATED") else 0)
+            r2 = r + (1 if ch.rep == "REPEATED" else 0)
+            if ch.is_leaf():
+                lf = Leaf(path + [ch.name], ch.ptype, ch.type_length, d2, r2, reps + [ch.rep], -1)
+                lf.nodes = nodes + [ch]
+                out.append(lf)
+            else:
+                walk(ch, path + [ch.name], d2, r2, reps + [ch.rep], nodes + [ch])
+
+    walk(root, [], 0, 0, [], [])
+    return out
+
+
+def shred(leaf_nodes, records):
+    """Dremel record shredding for one leaf: records = list of dicts (top-level groups); returns
+    (defs, reps, values).  A REQUIRED field holds its value, an OPTIONAL one a value or None, a REPEATED
+    one a list; group values are dicts."""
+    defs, reps, vals = [], [], []
+
+    def rec(i, container, r, d, rdepth):
+        node = leaf_nodes[i]
+        v = container.get(node.name)
+        if node.rep == "REQUIRED":
+            handle(i, v, r, d, rdepth)
+        elif node.rep == "OPTIONAL":
+            if v is None:
+                defs.append(d)
+                reps.append(r)
+            else:
+                handle(i, v, r, d + 1, rdepth)
+        else:
+            if not v:
+                defs.append(d)
+                reps.append(r)
+            else:
+                for k, item in enumerate(v):
+                    handle(i, item, r if k == 0 else rdepth + 1, d + 1, rdepth + 1)
+
+    def handle(i, v, r, d, rdepth):
+        if i == len(leaf_nodes) - 1:
+            defs.append(d)
+            reps.append(r)
+            vals.append(v)
+        else:
+            rec(i + 1, v, r, d, rdepth)
+
+    for record in records:
+        rec(0, record, 0, 0, 0)
+    return defs, reps, vals
+
+
+_EXTRA_ID = [100, 101, 102, 2000]
+
+
+def _extras(rng_like=None):
+    """Unknown fields: an i32, a binary, a struct holding a list, and one with an id needing 2 varint bytes."""
+    return [TField(100, CT_I32, -12345), TField(101, CT_BINARY, b"unknown\x00field"),
+            TField(102, CT_STRUCT, TStruct([TField(1, CT_LIST, TList(CT_I64, [1, 2, 3])), TField(2, CT_TRUE, True)])),
+            TField(2000, CT_MAP, TMap(CT_BINARY, CT_I32, [(b"k", 1)]))]
+
+
+def _finish(ts, spec):
+    """Apply the file-wide Thrift options to a struct (recursively)."""
+    for f in list(ts.fields):
+        if spec.long_form:
+            f.long_form = True
+        _finish_value(f.value, spec)
+    if spec.extra_fields:
+        ex = _extras()
+        for f in ex:
+            f.long_form = spec.long_form
+        ts.fields.extend(ex)
+    return ts
+
+
+def _finish_value(v, spec):
+    if isinstance(v, TStruct):
+        _finish(v, spec)
+    elif isinstance(v, TList):
+        if spec.long_form:
+            v.long_form = True
+        for it in v.items:
+            _finish_value(it, spec)
+
+
+def _stats_struct(ptype, values, nulls):
+    """Statistics for a page/chunk (min/max by the type's natural order for numeric types, byte order else)."""
+    fs = [TField(3, CT_I64, nulls)]
+    if values:
+        if ptype in ("INT32", "INT64"):
+            key = lambda b: int.from_bytes(b, "little", signed=True)
+        elif ptype in ("FLOAT", "DOUBLE"):
+            fmt = "<f" if ptype == "FLOAT" else "<d"
+            vs = [v for v in values if struct.unpack(fmt, v)[0] == struct.unpack(fmt, v)[0]]
+            if not vs:
+                return TStruct(fs)
+            values = vs
+            key = lambda b: struct.unpack(fmt, b)[0]
+        elif ptype == "BOOLEAN":
+            key = lambda b: b[0]
+        elif ptype == "INT96":
+            return TStruct(fs)
+        else:
+            key = lambda b: b
+        fs += [TField(5, CT_BINARY, max(values, key=key)), TField(6, CT_BINARY, min(values, key=key))]
+    return TStruct(fs)
+
+
+def write_file(spec, rng=None):
+    """FileSpec -> bytes of a Parquet file.  rng (random.Random) is needed only for 'random' run plans and
+    dictionary shuffling."""
+    rng = rng or random.Random(0)
+    leaves = spec.leaves()
+    out = bytearray(MAGIC)
+    rg_structs = []
+    for r, rg in enumerate(spec.row_groups):
+        cc_structs = []
+        tot_u = tot_c = 0
+        rg_start = len(out)
+        for c, (col, leaf) in enumerate(zip(rg.columns, leaves)):
+            chunk_start = len(out)
+            codec_tag = col.codec if isinstance(col.codec, int) else CODEC_ID[col.codec]
+            body_codec = col.body_codec or (col.codec if not isinstance(col.codec, int) else CODEC.get(col.codec, "UNCOMPRESSED"))
+            if body_codec in ("LZO", "BROTLI") or body_codec not in CODEC_ID:
+                body_codec = "UNCOMPRESSED"
+            used_enc = set()
+            uncomp_total = 0
+            # dictionary
+            needs_dict = any(p.encoding in ("RLE_DICTIONARY", "PLAIN_DICTIONARY") for p in col.pages)
+            dict_vals, dict_off = None, None
+            if needs_dict or col.dictionary is not None:
+                if isinstance(col.dictionary, list):
+                    dict_vals = list(col.dictionary)
+                else:
+                    dict_vals = []
+                    seen = set()
+                    for v in col.values:
+                        if v not in seen:
+                            seen.add(v)
+                            dict_vals.append(v)
+                    rng.shuffle(dict_vals)
+                body = plain_encode(leaf.ptype, dict_vals, leaf.type_length)
+                comp = pq_codecs.compress(body_codec, body)
+                ph = TStruct([TField(1, CT_I32, 2), TField(2, CT_I32, len(body)), TField(3, CT_I32, len(comp))])
+                if col.dict_crc:
+                    crc = zlib.crc32(comp) & 0xFFFFFFFF
+                    if col.dict_crc == "bad":
+                        crc ^= 0x10
+                    ph.fields.append(TField(4, CT_I32, crc - (1 << 32) if crc >> 31 else crc))
+                ph.fields.append(TField(7, CT_STRUCT, TStruct([TField(1, CT_I32, len(dict_vals)), TField(2, CT_I32, ENCODING_ID[col.dict_tag]),
+                                                               TField(3, CT_FALSE, False)])))
+                hb = thrift_encode_struct(_finish(ph, spec))
+                dict_off = len(out)
+                out += hb + comp
+                uncomp_total += len(hb) + len(body)
+                used_enc.add(ENCODING_ID[col.dict_tag])
+            index_of = {v: i for i, v in enumerate(dict_vals)} if dict_vals is not None else {}
+            # data pages
+            first_data = None
+            epos = vpos = 0
+            for p in col.pages:
+                defs = col.defs[epos:epos + p.n]
+                reps = col.reps[epos:epos + p.n]
+                nn = sum(1 for d in defs if d == leaf.max_def)
+                vals = col.values[vpos:vpos + nn]
+                epos += p.n
+                vpos += nn
+
+                def plan_for(pl, seq):
+                    if pl == "random":
+                        return random_plan(rng, seq, True)
+                    if pl == "random_nozero":
+                        return random_plan(rng, seq, False)
+                    return pl
+
+                if p.encoding in ("RLE_DICTIONARY", "PLAIN_DICTIONARY"):
+                    idx = [index_of[v] for v in vals]
+                    w = max(bit_width(max(len(dict_vals) - 1, 0)), 0) + p.idx_width_extra
+                    w = min(max(w, 1 if p.idx_width_extra or dict_vals else 0), 32)
+                    vbytes = bytes([w]) + rle_hybrid_encode(idx, w, plan_for(p.idx_plan, idx))
+                else:
+                    vbytes = encode_values(p.encoding, leaf.ptype, vals, leaf.type_length)
+                used_enc.add(ENCODING_ID[p.encoding])
+                if p.version == 1:
+                    lv = b""
+                    for seq, mx, pl in ((reps, leaf.max_rep, p.rep_plan), (defs, leaf.max_def, p.def_plan)):
+                        if mx == 0:
+                            continue
+                        if p.level_encoding == "RLE":
+                            b = rle_hybrid_encode(seq, bit_width(mx), plan_for(pl, seq))
+                            lv += struct.pack("<I", len(b)) + b
+                            used_enc.add(3)
+                        else:
+                            lv += bitpacked_levels_encode(seq, bit_width(mx))
+                            used_enc.add(4)
+                    body = lv + vbytes
+                    comp = pq_codecs.compress(body_codec, body)
+                    usize = len(body)
+                    le = ENCODING_ID[p.level_encoding]
+                    dh = TStruct([TField(1, CT_I32, p.n), TField(2, CT_I32, ENCODING_ID[p.encoding]), TField(3, CT_I32, le), TField(4, CT_I32, le)])
+                    if p.stats:
+                        dh.fields.append(TField(5, CT_STRUCT, _stats_struct(leaf.ptype, vals, p.n - nn)))
+                    ptype_id, hfield = 0, 5
+                else:
+                    rb = rle_hybrid_encode(reps, bit_width(leaf.max_rep), plan_for(p.rep_plan, reps)) if leaf.max_rep else b""
+                    db = rle_hybrid_encode(defs, bit_width(leaf.max_def), plan_for(p.def_plan, defs)) if leaf.max_def else b""
+                    if leaf.max_rep or leaf.max_def:
+                        used_enc.add(3)
+                    cv = pq_codecs.compress(body_codec, vbytes) if p.v2_compressed else vbytes
+                    comp = rb + db + cv
+                    usize = len(rb) + len(db) + len(vbytes)
+                    nrows = sum(1 for x in reps if x == 0) if leaf.max_rep else p.n
+                    dh = TStruct([TField(1, CT_I32, p.n), TField(2, CT_I32, p.n - nn), TField(3, CT_I32, nrows),
+                                  TField(4, CT_I32, ENCODING_ID[p.encoding]), TField(5, CT_I32, len(db)), TField(6, CT_I32, len(rb)),
+                                  TField(7, CT_TRUE, bool(p.v2_compressed))])
+                    if p.stats:
+                        dh.fields.append(TField(8, CT_STRUCT, _stats_struct(leaf.ptype, vals, p.n - nn)))
+                    ptype_id, hfield = 3, 8
+                ph = TStruct([TField(1, CT_I32, ptype_id), TField(2, CT_I32, usize), TField(3, CT_I32, len(comp))])
+                if p.crc:
+                    crc = zlib.crc32(comp) & 0xFFFFFFFF
+                    if p.crc == "bad":
+                        crc ^= 0x8000
+                    ph.fields.append(TField(4, CT_I32, crc - (1 << 32) if crc >> 31 else crc))
+                ph.fields.append(TField(hfield, CT_STRUCT, dh))
+                hb = thrift_encode_struct(_finish(ph, spec))
+                if first_data is None:
+                    first_data = len(out)
+                out += hb + comp
+                uncomp_total += len(hb) + usize
+            if first_data is None:
+                first_data = len(out)
+            comp_total = len(out) - chunk_start
+            md = TStruct([TField(1, CT_I32, TYPE_ID[leaf.ptype]), TField(2, CT_LIST, TList(CT_I32, sorted(used_enc))),
+                          TField(3, CT_LIST, TList(CT_BINARY, [x.encode() for x in leaf.path])), TField(4, CT_I32, codec_tag),
+                          TField(5, CT_I64, len(col.defs)), TField(6, CT_I64, uncomp_total), TField(7, CT_I64, comp_total)])
+            if spec.optional_meta:
+                md.fields.append(TField(8, CT_LIST, TList(CT_STRUCT, [TStruct([TField(1, CT_BINARY, b"k"), TField(2, CT_BINARY, b"v")])])))
+            if dict_off is not None and col.dict_offset == "absent":
+                md.fields.append(TField(9, CT_I64, dict_off))
+            else:
+                md.fields.append(TField(9, CT_I64, first_data))
+                if dict_off is not None:
+                    md.fields.append(TField(11, CT_I64, dict_off))
+            if col.chunk_stats:
+                md.fields.append(TField(12, CT_STRUCT, _stats_struct(leaf.ptype, col.values, sum(1 for d in col.defs if d < leaf.max_def))))
+            if spec.optional_meta:
+                md.fields.append(TField(13, CT_LIST, TList(CT_STRUCT, [TStruct([TField(1, CT_I32, 0), TField(2, CT_I32, 0), TField(3, CT_I32, len(col.pages))])])))
+            cc = TStruct([TField(2, CT_I64, chunk_start), TField(3, CT_STRUCT, md)])
+            cc_structs.append(cc)
+            tot_u += uncomp_total
+            tot_c += comp_total
+        rgs = TStruct([TField(1, CT_LIST, TList(CT_STRUCT, cc_structs)), TField(2, CT_I64, tot_u), TField(3, CT_I64, rg.num_rows)])
+        if spec.optional_meta:
+            rgs.fields += [TField(5, CT_I64, rg_start), TField(6, CT_I64, tot_c), TField(7, CT_I16, r)]
+        rg_structs.append(rgs)
+    # schema, flattened depth first
+    elems = []
+
+    def flat(node, is_root):
+        fs = []
+        if node.is_leaf():
+            fs.append(TField(1, CT_I32, TYPE_ID[node.ptype]))
+            if node.ptype == "FIXED_LEN_BYTE_ARRAY":
+                fs.append(TField(2, CT_I32, node.type_length))
+        if not is_root:
+            fs.append(TField(3, CT_I32, REPETITION_ID[node.rep]))
+        fs.append(TField(4, CT_BINARY, node.name.encode()))
+        if not node.is_leaf():
+            fs.append(TField(5, CT_I32, len(node.children)))
+        if node.converted_type is not None:
+            fs.append(TField(6, CT_I32, node.converted_type))
+        if spec.optional_meta and not is_root:
+            fs.append(TField(9, CT_I32, len(elems)))
+        elems.append(TStruct(fs))
+        for ch in node.children:
+            flat(ch, False)
+
+    flat(spec.root, True)
+    fm = TStruct([TField(1, CT_I32, spec.version), TField(2, CT_LIST, TList(CT_STRUCT, elems)),
+                  TField(3, CT_I64, sum(rg.num_rows for rg in spec.row_groups)), TField(4, CT_LIST, TList(CT_STRUCT, rg_structs))])
+    if spec.optional_meta:
+        fm.fields.append(TField(5, CT_LIST, TList(CT_STRUCT, [TStruct([TField(1, CT_BINARY, b"writer"), TField(2, CT_BINARY, b"pq.py")]),
+                                                              TStruct([TField(1, CT_BINARY, b"novalue")])])))
+    if spec.created_by is not None:
+        fm.fields.append(TField(6, CT_BINARY, spec.created_by.encode()))
+    if spec.optional_meta:
+        fm.fields.append(TField(7, CT_LIST, TList(CT_STRUCT, [TStruct([TField(1, CT_STRUCT, TStruct([]))]) for _ in leaves])))
+    footer = thrift_encode_struct(_finish(fm, spec))
+    out += footer + struct.pack("<I", len(footer)) + MAGIC
+    return bytes(out)
+
+
+# ---- generators for the feature grid
+
+SUPPORTED_CODECS = ["UNCOMPRESSED", "SNAPPY", "GZIP", "ZSTD", "LZ4_RAW"]
+ALL_TYPES = ["BOOLEAN", "INT32", "INT64", "INT96", "FLOAT", "DOUBLE", "BYTE_ARRAY", "FIXED_LEN_BYTE_ARRAY"]
+UNSUPPORTED_ENCODINGS = {"INT32": ["DELTA_BINARY_PACKED", "BYTE_STREAM_SPLIT"], "INT64": ["DELTA_BINARY_PACKED", "BYTE_STREAM_SPLIT"],
+                         "FLOAT": ["BYTE_STREAM_SPLIT"], "DOUBLE": ["BYTE_STREAM_SPLIT"],
+                         "BYTE_ARRAY": ["DELTA_LENGTH_BYTE_ARRAY", "DELTA_BYTE_ARRAY"], "BOOLEAN": ["RLE"],
+                         "FIXED_LEN_BYTE_ARRAY": ["BYTE_STREAM_SPLIT"]}
+
+
+def gen_leaf_value(rng, ptype, tlen, small_domain=False):
+    """A random raw value; small_domain draws from few distinct values (good for dictionaries)."""
+    if small_domain:
+        k = rng.randrange(5)
+        if ptype == "BOOLEAN":
+            return bytes([k & 1])
+        if ptype == "BYTE_ARRAY":
+            return [b"", b"a", b"bb", b"parquet", b"\x00\xff"][k]
+        w = tlen if ptype == "FIXED_LEN_BYTE_ARRAY" else FIXED_WIDTH[ptype]
+        return bytes([(k * 37 + i) & 0xFF for i in range(w)])
+    if ptype == "BOOLEAN":
+        return bytes([rng.getrandbits(1)])
+    if ptype == "BYTE_ARRAY":
+        return bytes(rng.getrandbits(8) for _ in range(rng.choice([0, 1, 2, 5, 13, 40])))
+    w = tlen if ptype == "FIXED_LEN_BYTE_ARRAY" else FIXED_WIDTH[ptype]
+    if rng.random() < 0.3:
+        return rng.choice([bytes(w), b"\xff" * w, b"\x00" * (w - 1) + b"\x80", b"\xff" * (w - 1) + b"\x7f"])
+    return bytes(rng.getrandbits(8) for _ in range(w))
+
+
+def gen_schema(rng, nested=False, types=None, max_leaves=4):
+    """Random schema root.  nested=False: flat REQUIRED/OPTIONAL leaves; nested=True: groups with
+    optional/repeated ancestors up to depth 3 (incl. repeated leaves)."""
+    types = list(types or ALL_TYPES)
+    counter = [0]
+
+    def leaf(reps):
+        t = rng.choice(types)
+        counter[0] += 1
+        return SchemaNode(f"f{counter[0]}", rng.choice(reps), t, rng.choice([1, 3, 8, 16]) if t == "FIXED_LEN_BYTE_ARRAY" else 0)
+
+    def group(depth):
+        counter[0] += 1
+        g = SchemaNode(f"g{counter[0]}", rng.choice(["REQUIRED", "OPTIONAL", "REPEATED"]))
+        for _ in range(rng.randrange(1, 3)):
+            if depth < 2 and rng.random() < 0.4:
+                g.children.append(group(depth + 1))
+            else:
+                g.children.append(leaf(["REQUIRED", "OPTIONAL", "REPEATED"]))
+        return g
+
+    root = SchemaNode("schema", "REQUIRED")
+    n = rng.randrange(1, max_leaves + 1)
+    if not nested:
+        root.children = [leaf(["REQUIRED", "OPTIONAL"]) for _ in range(n)]
+    else:
+        while len(spec_leaves(root)) < n:
+            root.children.append(group(0) if rng.random() < 0.7 else leaf(["REQUIRED", "OPTIONAL", "REPEATED"]))
+    return root
+
+
+def gen_records(rng, root, n, small_domain=False):
+    """n random records (dicts) for the schema."""
+    def val(node):
+        if node.is_leaf():
+            return gen_leaf_value(rng, node.ptype, node.type_length, small_domain)
+        return {ch.name: field_val(ch) for ch in node.children}
+
+    def field_val(node):
+        if node.rep == "REQUIRED":
+            return val(node)
+        if node.rep == "OPTIONAL":
+            return None if rng.random() < 0.3 else val(node)
+        return [val(node) for _ in range(rng.choice([0, 0, 1, 2, 3]))]
+
+    return [{ch.name: field_val(ch) for ch in root.children} for _ in range(n)]
+
+
+def split_pages(rng, reps, n_entries, max_pages=4, at_records=True):
+    """Random page split of a chunk's entries -> list of entry counts (cuts only where a record starts when
+    at_records)."""
+    if n_entries == 0:
+        return [0] if rng.random() < 0.5 else []
+    cand = [i for i in range(1, n_entries) if (not at_records) or reps[i] == 0]
+    k = min(len(cand), rng.randrange(0, max_pages))
+    cuts = sorted(rng.sample(cand, k))
+    out, prev = [], 0
+    for c in cuts + [n_entries]:
+        out.append(c - prev)
+        prev = c
+    return out
+
+
+def gen_spec(rng, nested=None, codec=None, encoding=None, version=1, unsupported=None, max_rows=40, **flags):
+    """A random FileSpec from the feature grid.
+    nested: None = random.  codec: None = random supported codec.  encoding: None = random per column among
+    PLAIN / RLE_DICTIONARY / PLAIN_DICTIONARY.  unsupported: None | 'encoding' | 'page_v2' | 'codec' - put
+    exactly one feature carquet does not claim into the file (spec.features['unsupported'] says which and
+    where).  flags: extra_fields, long_form, optional_meta, crc, stats, bit_packed_levels (the deprecated
+    BIT_PACKED level encoding), random_runs, zero_runs (zero-length runs inside random run plans),
+    dict_offset ('present'|'absent'), bool_dict (dictionary-encode BOOLEAN columns too; no known writer does),
+    split_inside_records, types.  spec.features records every choice so that results can be sliced."""
+    nested = rng.random() < 0.4 if nested is None else nested
+    types = flags.get("types")
+    root = gen_schema(rng, nested, types)
+    leaves = spec_leaves(root)
+    nrg = rng.choice([1, 1, 2, 3])
+    zero_runs = flags.get("zero_runs", rng.random() < 0.3)
+    feats = {"nested": nested, "unsupported": None, "zero_runs": False, "random_runs": False, "multi_page": False,
+             "bit_packed_levels": bool(flags.get("bit_packed_levels", False)), "dict_offset": flags.get("dict_offset", "present"),
+             "dictionary": False, "version": version}
+    rgs = []
+    bad_col = rng.randrange(len(leaves)) if unsupported else -1
+    if unsupported == "encoding":
+        # pick a column whose type has an alternative encoding
+        cands = [i for i, l in enumerate(leaves) if l.ptype in UNSUPPORTED_ENCODINGS]
+        if not cands:
+            unsupported = "page_v2"
+        else:
+            bad_col = rng.choice(cands)
+    for r in range(nrg):
+        nrows = rng.choice([0, 1, 2, 7, 8, 9, 17, max_rows]) if rng.random() < 0.7 else rng.randrange(0, max_rows + 1)
+        small = rng.random() < 0.6
+        records = gen_records(rng, root, nrows, small)
+        cols = []
+        for ci, lf in enumerate(leaves):
+            defs, reps, vals = shred(lf.nodes, records)
+            enc = encoding or rng.choice(["PLAIN", "RLE_DICTIONARY", "PLAIN_DICTIONARY"])
+            if lf.ptype == "BOOLEAN" and not flags.get("bool_dict", False):
+                enc = "PLAIN"
+            if enc != "PLAIN":
+                feats["dictionary"] = True
+            cdc = codec or rng.choice(SUPPORTED_CODECS)
+            ns = split_pages(rng, reps, len(defs), at_records=not flags.get("split_inside_records", False))
+            pages = []
+            for n in ns:
+                p = PageSpec(n, enc if rng.random() < 0.8 or encoding else rng.choice(["PLAIN", enc]), version if unsupported is None else 1)
+                p.crc = flags.get("crc", rng.random() < 0.4)
+                p.stats = flags.get("stats", rng.random() < 0.3)
+                if flags.get("random_runs", rng.random() < 0.5):
+                    p.def_plan = p.rep_plan = p.idx_plan = "random" if zero_runs else "random_nozero"
+                    feats["random_runs"] = True
+                    feats["zero_runs"] = zero_runs
+                if flags.get("bit_packed_levels", False):
+                    p.level_encoding = "BIT_PACKED"
+                if rng.random() < 0.15:
+                    p.idx_width_extra = rng.choice([1, 3])
+                pages.append(p)
+            if len(pages) > 1:
+                feats["multi_page"] = True
+            col = ColumnSpec(defs, reps, vals, pages, cdc)
+            col.dict_offset = flags.get("dict_offset", "present")
+            col.dict_tag = rng.choice(["PLAIN", "PLAIN_DICTIONARY"])
+            col.dict_crc = bool(pages and pages[0].crc)
+            col.chunk_stats = flags.get("stats", rng.random() < 0.3)
+            if ci == bad_col and unsupported and pages:
+                if unsupported == "encoding":
+                    e = rng.choice(UNSUPPORTED_ENCODINGS[lf.ptype])
+                    for p in pages:
+                        p.encoding = e
+                    feats["unsupported"] = ("encoding", e, ci)
+                elif unsupported == "page_v2":
+                    for p in pages:
+                        p.version = 2
+                        p.level_encoding = "RLE"
+                    feats["unsupported"] = ("page_v2", None, ci)
+                elif unsupported == "codec":
+                    col.codec = rng.choice([3, 4, 8, 99])
+                    col.body_codec = "UNCOMPRESSED"
+                    feats["unsupported"] = ("codec", col.codec, ci)
+            cols.append(col)
+        rgs.append(RowGroupSpec(nrows, cols))
+    spec = FileSpec(root, rgs)
+    spec.extra_fields = flags.get("extra_fields", rng.random() < 0.3)
+    spec.long_form = flags.get("long_form", rng.random() < 0.2)
+    spec.optional_meta = flags.get("optional_meta", rng.random() < 0.4)
+    spec.version = rng.choice([1, 2])
+    feats.update(extra_fields=spec.extra_fields, long_form=spec.long_form, optional_meta=spec.optional_meta)
+    spec.features = feats
+    return spec
+
+
+def feature_grid(rng, per_cell=1):
+    """Systematic sweep over the grid: {flat, nested} x codecs x {PLAIN, RLE_DICTIONARY, PLAIN_DICTIONARY} x
+    {default runs, random runs, BIT_PACKED levels} x {dictionary offset present/absent} x {plain metadata,
+    unknown fields, long-form headers, optional metadata}; yields (label, FileSpec)."""
+    for nested in (False, True):
+        for codec in SUPPORTED_CODECS:
+            for enc in ("PLAIN", "RLE_DICTIONARY", "PLAIN_DICTIONARY"):
+                for runs in ("default", "random", "bitpacked"):
+                    for meta in ("plain", "extra", "long", "optional"):
+                        for _ in range(per_cell):
+                            flags = {"random_runs": runs == "random", "bit_packed_levels": runs == "bitpacked",
+                                     "extra_fields": meta == "extra", "long_form": meta == "long", "optional_meta": meta == "optional",
+                                     "dict_offset": "absent" if (enc != "PLAIN" and rng.random() < 0.3) else "present"}
+                            yield (f"{'nested' if nested else 'flat'}/{codec}/{enc}/{runs}/{meta}/dict_{flags['dict_offset']}",
+                                   gen_spec(rng, nested=nested, codec=codec, encoding=enc, **flags))
+
+
+def _selftest_writer(rng):
+    """write_file -> read_file round trips over the grid; returns the list of failures."""
+    fails = []
+    n = 0
+    for label, spec in feature_grid(rng):
+        data = write_file(spec, rng)
+        pf = read_file(data)
+        errs = pf.errors()
+        if errs:
+            fails.append(f"grid {label}: reader rejects writer output: {errs[0]}")
+            continue
+        if pf.levels() != spec.truth():
+            fails.append(f"grid {label}: levels/values differ from the ground truth")
+        if [(l.path, l.ptype, l.max_def, l.max_rep) for l in pf.leaves] != [(l.path, l.ptype, l.max_def, l.max_rep) for l in spec.leaves()]:
+            fails.append(f"grid {label}: schema differs")
+        n += 1
+    for uns in ("encoding", "page_v2", "codec"):
+        for _ in range(30):
+            spec = gen_spec(rng, unsupported=uns)
+            data = write_file(spec, rng)
+            pf = read_file(data)
+            kind = spec.features["unsupported"]
+            if kind is None:
+                continue
+            if kind[0] == "codec":
+                if not any(v.clause in ("codec_tag", "codec_unavailable") for v in pf.validate()):
+                    fails.append("unknown codec not noticed by the reader")
+            else:
+                if pf.errors() or pf.levels() != spec.truth():
+                    fails.append(f"{kind}: reader does not decode the writer's output: {pf.errors()[:1]}")
+            n += 1
+    # a bad CRC is noticed
+    spec = gen_spec(rng, nested=False, codec="SNAPPY", encoding="PLAIN", crc="bad")
+    if any(rg.num_rows for rg in spec.row_groups) and not any(v.clause == "page_crc" for v in read_file(write_file(spec, rng)).validate()):
+        fails.append("bad CRC not noticed")
+    print(f"reference writer: {n} files round-tripped")
+    for f in fails[:10]:
+        print("SELFTEST-FAIL:", f)
+    return fails
 
 
 # ----------------------------------------------------------------------------- self-test (reader part)
